@@ -18,18 +18,19 @@ Definition wvalue := (bool * list N * string * option N)%type.
 Definition wvalue_ok (w : wvalue) : Prop :=
   let '(neg, ds, _, _) := w in
   ds <> [] /\ all_digits ds = true /\ - 9223372036854775808 <= int_value neg ds < 9223372036854775808.
-Definition wvalue_doc (rest : list jv) (w : wvalue) : jv :=
+(* ints: whether the text of the number is an integer literal, and which *)
+Definition wvalue_doc (ints : N -> option Z) (rest : list jv) (w : wvalue) : jv :=
   let '(neg, ds, line, v) := w in
-  JArr ([JStr (int_text neg ds); JStr line] ++ match v with Some b => JNum b :: rest | None => [] end).
+  JArr ([JStr (int_text neg ds); JStr line] ++ match v with Some b => JNum b (ints b) :: rest | None => [] end).
 Definition wvalue_entry (w : wvalue) : lentry :=
   let '(neg, ds, line, v) := w in LE (int_value neg ds) (Some line) v.
 
 Lemma value_positions_tail : forall rest e, value_positions 3 rest e = Some e.
 Proof. induction rest as [|v r IH]; intro e; [reflexivity|]. cbn [value_positions]. apply IH. Qed.
 
-Lemma value_entry_written : forall rest w, wvalue_ok w -> value_entry (wvalue_doc rest w) = Some (wvalue_entry w).
+Lemma value_entry_written : forall ints rest w, wvalue_ok w -> value_entry (wvalue_doc ints rest w) = Some (wvalue_entry w).
 Proof.
-  intros rest [[[neg ds] line] v] [Hne [Hd Hr]]. unfold value_entry, wvalue_doc, wvalue_entry.
+  intros ints rest [[[neg ds] line] v] [Hne [Hd Hr]]. unfold value_entry, wvalue_doc, wvalue_entry.
   cbn [app value_positions]. rewrite (parse_int64_int_text neg ds Hne Hd Hr). unfold upd_entry. cbn [le_line le_val le_ts].
   destruct v as [b|]; cbn [value_positions le_ts le_line le_val]; [apply value_positions_tail | reflexivity].
 Qed.
@@ -37,11 +38,12 @@ Qed.
 Section DOC.
   Variable uletter udigit : string -> bool.
   Variable rfc : string -> option Z.
+  Variable ints : N -> option Z.
 
   Definition wstream := (labels * list wvalue)%type.
   Definition wstream_doc (rest : list jv) (s : wstream) : jv :=
     JObj [("stream"%string, JObj (map (fun kv => (fst kv, JStr (snd kv))) (fst s)));
-          ("values"%string, JArr (map (wvalue_doc rest) (snd s)))].
+          ("values"%string, JArr (map (wvalue_doc ints rest) (snd s)))].
   Definition wstream_stream (s : wstream) : lstream := LS (fst s) (map wvalue_entry (snd s)).
   Definition push_doc (rest : list jv) (ws : list wstream) : jv := JObj [("streams"%string, JArr (map (wstream_doc rest) ws))].
 
@@ -61,7 +63,7 @@ Section DOC.
     rewrite stream_labels_written. cbn [option_map].
     change (String.eqb "values" "stream") with false. change (String.eqb "values" "labels") with false.
     change (String.eqb "values" "values") with true. cbv iota.
-    rewrite (all_some_map _ _ _ value_entry (wvalue_doc rest) wvalue_entry).
+    rewrite (all_some_map _ _ _ value_entry (wvalue_doc ints rest) wvalue_entry).
     - reflexivity.
     - intros w Hw. apply value_entry_written. rewrite Forall_forall in H. exact (H w Hw).
   Qed.
@@ -85,7 +87,7 @@ Section ENTRIES.
     let '(long, t, line, v) := w in
     JObj (((if long then "timestamp" else "ts")%string, JStr t)
           :: (match line with Some l => [("line"%string, JStr l)] | None => [] end)
-          ++ (match v with Some b => [("value"%string, JNum b)] | None => [] end)).
+          ++ (match v with Some b => [("value"%string, JNum b None)] | None => [] end)).
   Definition wentry_ts (w : wentry) : option Z := let '(_, t, _, _) := w in parse_time rfc t.
   Definition wentry_entry (ts : Z) (w : wentry) : lentry := let '(_, _, line, v) := w in LE ts line v.
 
